@@ -215,6 +215,12 @@ def reuse_jobs(items, thorough, max_exec=800):
                     jobs.append(dict(name=name, scen=scen, cfg=cfg, budget=1, max_exec=max_exec * 4))
         jobs.append(dict(name=name, scen=scen, cfg=dict(lazy=True, cache=True, reuse=True, sync="all"),
                          budget=0, max_exec=10))
+        # ... and simulators that consume their `inputs` destructively (clear the dictionaries
+        # they were handed): mosaik's own memory of persistent inputs must not live in them
+        for cfg in (dict(lazy=True, cache=False, mutate_inputs=True),
+                    dict(lazy=True, cache=False, mutate_inputs=True, sync="all")) + \
+                ((dict(lazy=False, cache=True, mutate_inputs=True),) if thorough else ()):
+            jobs.append(dict(name=name, scen=scen, cfg=cfg, budget=0, max_exec=max_exec))
     return jobs
 
 
